@@ -63,6 +63,7 @@ class SimEnv:
         self.clock_seed: int = int(cfg.get("clock_seed", 0))
         self._clock_now: float = 1_700_000_000.0 + (self.clock_seed % 1000) / 1000.0
         self._clock_state: int = self.clock_seed
+        self._clock_start: float = self._clock_now
         self._fork_ok = 0
         self.in_worker: Optional[int] = None
         self._worker_events: List[Dict[str, Any]] = []
